@@ -1260,7 +1260,7 @@ def c11(ctx):
             why = None
             if it.get("stage") != "ok":
                 why = classify_stage(it)
-            elif it.get("stage_ns", 0) > 20_000_000 + 2000 * it.get("size", 0):
+            elif it.get("stage_ns", 0) > 500_000_000 + 20_000 * it.get("size", 0):     # generous linear budget: wall time on a loaded machine
                 why = "http-stage:slow"
             if why:
                 classes[why] = classes.get(why, 0) + 1
